@@ -633,7 +633,7 @@ class Judge:
                          sample={'label': sc['label'], 'history': [fmt_step(x) for x in steps[:i]], 'observed': fmt_step(s),
                                  'after_history': summarize(rec), 'fresh': summarize(b)} if ctx.evaluations < 3 else None)
                 ctx.count('compared_with_fresh')
-                if s.get('filechange'):
+                if s.get('filechange') or any(x['op'] in ('write', 'utime', 'delete') for x in steps[:i]):
                     ctx.count('file_change_cases')
                 if sc.get('tree') is None or sc['tree']['mode'] == 'copy':
                     ctx.count('compared_real_class' if self.is_real_class(s['name']) else 'compared_small_class')
@@ -1048,7 +1048,7 @@ def shards(tier, seed):
     for i, n in enumerate(names):
         cls = 'small' if n in small else 'real'
         other = rng.choice(small if cls == 'small' else real)
-        out.append({'kind': 'hist', 'cls': cls, 'targets': [n, other], 'primary': n, 'n_hist': 12 if cls == 'small' else 9,
+        out.append({'kind': 'hist', 'cls': cls, 'targets': [n, other], 'primary': n, 'n_hist': 16 if cls == 'small' else 11,
                     'openers': [], 'heavy': True, 'copy': i % 4 == 0, 'par': 1, 'n_limits': 2, 'clash': True, 'i': i})
     return out
 
